@@ -41,6 +41,13 @@ def serial_with_rounding(cfg, hist, comm, communicate_params, record_state=False
         if ev[0] == "set":
             seq.apply_set(opt, None, ev)
             continue
+        if ev[0] == "scale":  # parameters modified in place outside the optimizer (checkpoint load, clipping, projection)
+            import torch
+
+            with torch.no_grad():
+                for p in params:
+                    p.mul_(ev[1])
+            continue
         seq.set_grads(params, cfg, t, ev[1])
         opt.step()
         t += 1
@@ -63,6 +70,11 @@ def ddp_program(cfg, hist, comm, group_size, communicate_params, observe=None):
         for ev in hist:
             if ev[0] == "set":
                 seq.apply_set(opt, None, ev)
+                continue
+            if ev[0] == "scale":
+                with torch.no_grad():
+                    for p in params:
+                        p.mul_(ev[1])
                 continue
             seq.set_grads(params, cfg, t, ev[1])
             opt.step()
